@@ -181,6 +181,11 @@ func (e *c07ex) Exec(op string) string {
 	if e.c == nil {
 		return "bad-op"
 	}
+	if w[0] == "tracing" {
+		// the configuration names a trace collector: spans get real, process-local ids from now on
+		e.c.Reconfigure(world.Options{Tracing: true})
+		return "ok"
+	}
 	if w[0] == "trace" {
 		// the client's trace context travelling in the transient map of every following proposal
 		if len(w) != 2 {
@@ -353,6 +358,9 @@ func genC07(c *Cfg, emit func([]string)) {
 		n := 4 + c.Rng.Intn(maxSteps)
 		if c.Rng.Intn(2) == 0 {
 			h = append(h, "trace "+pick("1", "2", "3", "4"))
+			if c.Rng.Intn(2) == 0 {
+				h = append(h, "tracing on")
+			}
 		}
 		for j := 0; j < n; j++ {
 			mode := pick("cb", "ct", "db", "dt", "dt", "db")
